@@ -334,7 +334,7 @@ func init() {
 				r.States.Add(int64(len(c.Program)))
 				ok, sig, detail := c11Eval(c)
 				if len(c.Program) >= 2 || !strings.HasPrefix(c.Shape, "exact/exact") {
-					r.Distinct.Add(mustJSON(c))
+					r.DistinctByConstruction.Add(1) // (shape, program) pairs are enumerated exactly once
 				}
 				if !ok {
 					r.Fail(engine.Failure{Sig: sig, Case: c, Detail: detail, Size: len(c.Program)*100 + len(c.Shape)})
